@@ -137,6 +137,27 @@ func runC03(args []string) int {
 		}
 		nontrivial := strings.Contains(strings.Join(impl.Files, ""), "]&") || strings.Count(strings.Join(impl.Files, ""), "[") > 1
 		r.count("s"+hexs(rs.Data), nontrivial && impl.ErrClass == 0)
+		// the property itself on what Decode returned, judged by the reference semantics (Spec/FitSyntax.v, extracted):
+		// per slot of the file type exactly the denoted messages of that type, in stream order, the last one for a
+		// single-valued slot -- in particular a message the file type does not hold has no effect on the others
+		// (a decoder that treats dropped messages differently, e.g. skips their timestamp, shows here with the stream
+		// as the failing input).  Streams with a second file_id are left to the accessor check and its recorded finding.
+		if impl.ErrClass == 0 && impl.Panic == "" && len(impl.Raw) == 1 && impl.Raw[0] != nil {
+			nfid := 0
+			for _, rec := range s.Records {
+				if rec.Kind != "D" && findDefGmn(s, rec) == 0 {
+					nfid++
+				}
+			}
+			if nfid <= 1 {
+				if sr, e := askSpec(w.d, s); e == nil && sr.InDomain {
+					r.hist("routing_judged_by_reference_semantics")
+					if diff := compareFileWithSpec(impl.Raw[0], sr); diff != "" {
+						r.specFail("routing_spec", "the File Decode returned is not the routing of the messages the stream denotes: "+diff+fmt.Sprintf("\n    records: %.600s", s.specArgs()), rep)
+					}
+				}
+			}
+		}
 		// accessor property on what Decode returns
 		if impl.ErrClass == 0 && impl.Panic == "" {
 			f, err := fit.Decode(rs.reader())
